@@ -11,35 +11,6 @@ TRUSTED = [
 ]
 
 
-def collect(engine, cases, oracle, kinds, rep, stats):
-    findings = []
-    results = corr.run_cases(engine, cases)
-    for c in results:
-        stats["cases"] += 1
-        stats["ops"] += len(c["raw"])
-        key = hashlib.sha1("\n".join(c["ann"]).encode()).hexdigest()
-        if key not in stats["distinct"]:
-            stats["distinct"].add(key)
-        mi = corr.first_mismatch(c)
-        if mi is not None:
-            findings.append({"kind": "mismatch", "engine": engine, "case": c, "idx": mi,
-                             "msg": "op %d `%s`: impl `%s` vs model `%s`" % (
-                                 mi, c["ann"][mi] if mi < len(c["ann"]) else "?",
-                                 c["impl"][mi] if mi < len(c["impl"]) else "<missing>",
-                                 c["model"][mi] if mi < len(c["model"]) else "<missing>"),
-                             "pred": (lambda cc: corr.first_mismatch(cc) is not None)})
-        else:
-            stats["validated"] += 1
-        for kind, idx, msg in oracle(c["raw"], c["ann"], c["impl"]):
-            if kind not in kinds:
-                continue
-            strat = re.search(r"strat=(\w+)", c["ann"][0])
-            sig = {"engine": engine, "kind": kind, "strategy": strat.group(1) if strat else None}
-            findings.append({"kind": "oracle", "engine": engine, "case": c, "idx": idx, "msg": msg, "sig": sig,
-                             "pred": (lambda cc, kind=kind: any(k == kind for k, _, _ in oracle(cc["raw"], cc["ann"], cc["impl"])))})
-    return findings
-
-
 def run(tier, seed, replay):
     rep = Report("C20", tier, seed)
     thorough = tier == "thorough"
@@ -58,7 +29,7 @@ def run(tier, seed, replay):
         cases_t = [ops] if eng == "tiered" else []
         cases_q = [ops] if eng == "qcache" else []
     else:
-        n = 1500 if thorough else 160
+        n = 3000 if thorough else 400
         rng = rng_for(seed, "C20/tiered")
         cases_t = []
         for p in sorted(os.listdir(os.path.join(CORPUS, "C20"))) if os.path.isdir(os.path.join(CORPUS, "C20")) else []:
@@ -69,8 +40,8 @@ def run(tier, seed, replay):
             cases_t.append(tiered.gen_case(rng, pokes=(i % 5 >= 2), n_ops=60 if thorough else 35))
         rngq = rng_for(seed, "C20/qcache")
         cases_q = [qcache.gen_case(rngq, n_ops=60 if thorough else 40) for _ in range(n)]
-    findings += collect("tiered", cases_t, tiered.oracle, kinds, rep, stats)
-    findings += collect("qcache", cases_q, qcache.oracle, kinds, rep, stats)
+    findings += corr.collect("tiered", cases_t, tiered.oracle, kinds, rep, stats)
+    findings += corr.collect("qcache", cases_q, qcache.oracle, kinds, rep, stats)
     verdict.settle(rep, ok, info, findings, MODULE)
     proof_coverage(rep, info, "cd lean && lake build %s && lake env lean <#print axioms audit>" % MODULE, TRUSTED)
     rep.coverage.update({
